@@ -778,7 +778,14 @@ double Circuit::expandCellsByFactor(const std::vector<float> &expansionFactor,
     if (!cellIsFixed_[i]) {
       // Just round down here, as we don't want to redistribute expansion
       // between the cells
-      cellWidth_[i] *= expansion[i];
+      int w = cellWidth_[i];
+      int newW = w * expansion[i];
+      // The product goes through a float, which is not exact for widths
+      // above 2^24: never narrow a cell that is asked to expand
+      if (expansion[i] >= 1.0f) {
+        newW = std::max(newW, w);
+      }
+      cellWidth_[i] = newW;
     }
   }
 
